@@ -457,3 +457,16 @@ def outstanding : List Pkt → Nat
 def outstandingAll (s : St) : Nat := outstanding s.s0.sent + outstanding s.s1.sent + outstanding s.s2.sent
 
 end GmQuic.Recovery
+
+namespace GmQuic.Recovery
+
+/-- fold of `step` over a history; every operation comes with its float-derived inputs -/
+def run : St → List (Inp × Op) → Except String St
+  | s, [] => .ok s
+  | s, (i, op) :: rest => (step s i op).bind fun r => run r.1 rest
+
+/-- probe-timeout interval of a space for `pto_count = n` (`get_pto`, and the duration used by `get_pto_time_and_epoch`) -/
+def ptoInterval (srtt rttvar mad n : Nat) (data : Bool) : Nat :=
+  basePto srtt rttvar n + (if data then mad * 2 ^ n else 0)
+
+end GmQuic.Recovery
